@@ -421,7 +421,8 @@ class Parser:
                 code_gen.add_instruction(OpCode.PUSHQ, value)
             else:
                 code_gen.push(value)
-        elif value is not dest:
+        elif move_inst is OpCode.MOVEQ or value is not dest:
+            # Only a move of a variable or register onto itself is redundant.
             code_gen.add_instruction(move_inst, value, dest)
 
         return self.next_token()
